@@ -4,8 +4,8 @@
    Known finding `subscribe-response-unbounded`: the response to a subscribe call is built with the connection sink's
    limit (u32::MAX), so C08_single_exact is stated for every callback kind except CbSubscription and
    C08_sub_refuted exhibits the failing call. *)
-From JV Require Import Base.Bytes Base.Dec Json.JsonSer Model.Wire Gen.LimitsWiringGen Model.RespSize Model.ReqLimit
-  Proofs.ReqLimitFacts Proofs.RespSizeFacts.
+From JV Require Import Base.Bytes Base.Dec Base.Utf8 Json.JsonSer Model.Wire Model.ErrShape Gen.LimitsWiringGen
+  Gen.ErrorConstsGen Model.RespSize Model.ReqLimit Proofs.ReqLimitFacts Proofs.RespSizeFacts.
 Local Open Scope N_scope.
 
 Theorem C08_write_ok_iff : forall (chunks : list bytes) (max : N), (bounded_write chunks max = Some (concat chunks) <-> blen (concat chunks) <= max) /\ (bounded_write chunks max = None <-> max < blen (concat chunks)) /\ (forall b, bounded_write chunks max = Some b -> b = concat chunks).
@@ -60,3 +60,15 @@ Proof. vm_compute. split; reflexivity. Qed.
 
 Example C08_witness_batch : batch_response 77 [b#"{""jsonrpc"":""2.0"",""id"":1,""result"":""a""}"; b#"{""jsonrpc"":""2.0"",""id"":1,""result"":""a""}"] = b#"[{""jsonrpc"":""2.0"",""id"":1,""result"":""a""},{""jsonrpc"":""2.0"",""id"":1,""result"":""a""}]" /\ batch_response 76 [b#"{""jsonrpc"":""2.0"",""id"":1,""result"":""a""}"; b#"{""jsonrpc"":""2.0"",""id"":1,""result"":""a""}"] = b#"{""jsonrpc"":""2.0"",""id"":null,""error"":{""code"":-32011,""message"":""The batch response was too large"",""data"":""Exceeded max limit of 76""}}".
 Proof. vm_compute. split; reflexivity. Qed.
+
+(* The library's codes, messages and data prefixes are not written in the models: they are the constants of
+   Gen/ErrorConstsGen.v, regenerated from types/src/error.rs and core/src/server/method_response.rs on every check
+   (tools/translators/error_consts.py).  What the proofs of C01, C02, C07 and C08 need of them, decided by evaluating
+   the generated constants: the codes are pairwise distinct i32 values that print in at most 6 bytes; every message is
+   UTF-8, needs no JSON escape and is at most 72 bytes long; the message and the data prefix of every error object that
+   quotes a limit (the reject_* helpers, the -32008 construction) are such constants, the prefix is UTF-8 without
+   escapes, and together they are at most 62 bytes (the bound of C08_fixed_error_bound); ErrorCode's code/message
+   pairs and the constants of the batches-disabled error are among them. *)
+Theorem C08_consts_pinned : NoDup all_error_codes /\ Forall (fun c => (-2147483648 <= c < 2147483648)%Z /\ blen (print_Z c) <= 6) all_error_codes /\ Forall (fun m => utf8_valid m = true /\ escape_body m = m /\ blen m <= 72) all_error_msgs /\ Forall (fun sh => In (sh_code sh) all_error_codes /\ In (sh_msg sh) all_error_msgs /\ exists p, sh_prefix sh = Some p /\ utf8_valid p = true /\ escape_body p = p /\ blen (sh_msg sh) + blen p <= 62) limit_shapes /\ Forall (fun cm => In (fst cm) all_error_codes /\ In (snd cm) all_error_msgs) errorcode_pairs /\ In batches_not_supported_code all_error_codes /\ In batches_not_supported_msg all_error_msgs.
+Proof. exact consts_pinned. Qed.
+Print Assumptions C08_consts_pinned.
